@@ -1222,6 +1222,11 @@ func cleanFlagConditions(fcs *[]FlagCondition) bool {
 	if len(*fcs) == 0 {
 		return true
 	}
+	// only the bits of the masks in use make a difference, the values of the other bits are not enumerated
+	union := uint16(0)
+	for _, fc := range *fcs {
+		union |= fc.Mask
+	}
 	type forbiddenFlagValues struct {
 		SubQueries []string
 		forbidden  []uint64
@@ -1243,11 +1248,11 @@ next_fc:
 			continue
 		}
 		forbidden := make([]uint64, 0x10000/64)
-		for v := uint16(0); ; v++ {
+		for v := union; ; v = (v - 1) & union {
 			if v&fc.Mask == fc.Value {
 				forbidden[v/64] |= 1 << (v % 64)
 			}
-			if v == math.MaxUint16 {
+			if v == 0 {
 				break
 			}
 		}
@@ -1276,7 +1281,11 @@ next_fc:
 		mask := uint16(0)
 		for bit := 0; bit < 16; bit++ {
 			m := uint16(1 << bit)
-			for v := ^m; ; v = (v - 1) & ^m {
+			if union&m == 0 {
+				continue
+			}
+			rest := union &^ m
+			for v := rest; ; v = (v - 1) & rest {
 				f1 := 1 & (info.forbidden[v/64] >> (v % 64))
 				f2 := 1 & (info.forbidden[(v^m)/64] >> ((v ^ m) % 64))
 				if f1 != f2 {
